@@ -32,7 +32,7 @@ fn is_expr_state<'p>(s: &State<'_, 'p>, want: &'p ir::Expr<'p>, env: &GcView<Thu
 // C08: lowering of the comparison operators
 // ---------------------------------------------------------------------------------------------------
 
-// @harness id=c08_operator_lowering props=C08,C02 tier=quick cap=1200
+// @harness id=c08_operator_lowering props=C08,C02:thorough tier=quick cap=1200
 // @desc one real call of Evaluator::do_expr on `l OP r` with OP ANY of < <= > >= == !=: the operands are scheduled lhs first, then rhs, in the same environment; then CompareValue for the four ordering operators and EqualsValue for == and !=; then exactly the conversion that belongs to the operator (IsLt for <, IsLe for <=, IsGt for >, IsGe for >=; BoolToValue for ==, InvertBool then BoolToValue for !=), all inside one counted Expr frame. So `a <= b` is never lowered as `a >= b`, `!=` is exactly the negation of `==`, and both operators use the same comparison of the same operands
 // @bound the six comparison operators (symbolic); operands are opaque expressions
 // @funcs Evaluator::do_expr (arm ir::Expr::Binary)
@@ -295,7 +295,7 @@ fn var_case(which: u8) {
     core::mem::forget((env, p, g, inner_x, outer_x, outer_y, dummy_env));
 }
 
-// @harness id=c02_expr_var_lookup props=C02,C09,C04 tier=quick cap=1500
+// @harness id=c02_expr_var_lookup props=C02:thorough,C09,C04:thorough tier=quick cap=1500
 // @desc one real call of Evaluator::do_expr on a variable reference per case, in a chain of three environments: a name bound in the innermost environment and in the outermost one resolves to the INNERMOST binding and, being evaluated already, yields its value without re-evaluation; a name bound only in the outermost environment is found there and its pending thunk is forced inside a counted Variable frame
 // @bound environment chains of depth 3; values = arbitrary finite numbers
 // @funcs Evaluator::do_expr (arm ir::Expr::Var), ThunkEnv::get_var, Evaluator::want_thunk_direct
@@ -400,7 +400,7 @@ fn c04_expr_array_is_lazy() {
 }
 }
 
-// @harness id=c02_expr_must_fail props=C02 tier=quick cap=900 expect=fail
+// @harness id=c02_expr_must_fail props=C02 tier=thorough cap=900 expect=fail
 // @desc vacuity twin of the do_expr harnesses
 eval_stubs! {
 #[kani::proof]
